@@ -774,6 +774,16 @@ class HttpRequestParser(HttpParser[RawRequestMessage]):
         if version_o == HttpVersion11 and hdrs.HOST not in headers:
             raise BadHttpMessage("Missing 'Host' header in request.")
 
+        host = headers.get(hdrs.HOST)
+        if host:
+            # https://www.rfc-editor.org/rfc/rfc9112#section-3.2-6
+            # An invalid Host value is a client error; without this check it
+            # only surfaces as a ValueError when ``request.url`` is built.
+            try:
+                URL.build(authority=host)
+            except ValueError as exc:
+                raise BadHttpMessage("Invalid 'Host' header in request.") from exc
+
         if close is None:  # then the headers weren't set in the request
             if version_o <= HttpVersion10:  # HTTP 1.0 must asks to not close
                 close = True
